@@ -190,6 +190,8 @@ class RefNet:
         for (n, o), i in list(self.inst.items()):
             if n == src:
                 self.inst[(new, o)] = _copy.deepcopy(i)
+                if 'reads' in i:       # a readout operator reads its OWN node's first operator
+                    self.inst[(new, o)]['reads'] = new + i['reads'][len(src):]
         self.state_names = [f'{n}/{o}/{v}' for (n, o), i in self.inst.items() for v in LIB[i['lib']]['state']]
 
     def set_value(self, node, opname, var, val):
@@ -203,6 +205,8 @@ class RefNet:
         return {f'{n}/{o}/{v}': val for (n, o), i in self.inst.items() for v, val in i['p'].items()}
 
     def undelayed_input(self, y, node, opname, skip_delayed=True):
+        if self.inst[(node, opname)]['lib'] == 'rd':
+            return y[self.inst[(node, opname)]['reads']]      # what a readout operator receives: its sibling's variable
         u = 0.0
         for s, t, a in self.edges:
             if t == f"{node}/{opname}/{LIB[self.inst[(node, opname)]['lib']]['in']}":
@@ -610,7 +614,7 @@ def _state_of_target(spec, level, tgt):
     raise KeyError(opname)
 
 
-def gen_aliased(rng, uniq='', hier=None, build='python', libs=('lin', 'leak', 'sat')):
+def gen_aliased(rng, uniq='', hier=None, build='python', libs=('lin', 'leak', 'sat'), readouts=0.0):
     """circuit with aliasing: one OperatorTemplate used by several NodeTemplates (with and without per-node overrides),
     one NodeTemplate object under several node keys (and in several sub-circuits)."""
     kinds = [rng.choice(libs) for _ in range(rng.randint(1, 2))]
@@ -628,6 +632,14 @@ def gen_aliased(rng, uniq='', hier=None, build='python', libs=('lin', 'leak', 's
                 var[c] = _grid(rng, 0.25, 3.0, 16)
         key = f'nt{i}{uniq}'
         spec['nts'][key] = {'name': key, 'ops': [k + uniq], 'var': ({k + uniq: var} if var else {})}
+        if readouts and rng.random() < readouts:
+            # multi-operator node template: a readout operator (shared between node templates of the same first-operator
+            # kind) behind the first one, with overrides of its own or none (an empty entry next to a non-empty one)
+            rk = f'rd_{k}{uniq}'
+            spec['ops'].setdefault(rk, {'lib': 'rd', 'name': rk, 'reads': LIB[k]['out'], 'defaults': dict(LIB['rd']['defaults'])})
+            spec['nts'][key]['ops'].append(rk)
+            if rng.random() < 0.6:
+                spec['nts'][key]['var'][rk] = {c: _grid(rng, 0.25, 3.0, 16) for c in rng.sample(['kq', 'gq', 'q'], rng.randint(1, 3))}
         ntk.append(key)
     n = rng.randint(2, 5)
     names = node_names(rng, n)
